@@ -149,6 +149,13 @@ def build_table(R, rng):
     for mg in (1e-2, 1.0):
         NH = _non_herm(rng, 3, mg)
         add("det(Moore)", f"NH:{mg}", lambda NH=NH: U.det(NH, "Moore"), NH)
+    # the Moore determinant documents its Hermitian test at machine precision (ishermitian, default tolerance eps relative to max|A|): a skew
+    # part of relative size 1e-4 .. 1e-10 is ten thousand times and more above it - still outside the domain (other Hermitian-only entry points
+    # document looser tests and are only given the margins 1e-2 and 1)
+    for mg in (1e-4, 1e-6, 1e-8, 1e-10):
+        for nn in (2, 4, 6):
+            NH = _non_herm(rng, nn, mg)
+            add("det(Moore)", f"NH:small_margin:{mg:g}:n={nn}", lambda NH=NH: U.det(NH, "Moore"), NH)
     for nn in (1, 2, 4):
         for lab, NH in _non_herm_structured(rng, nn).items():
             add("det(Moore)", f"NH:{lab}:n={nn}", lambda NH=NH: U.det(NH, "Moore"), NH)
